@@ -302,3 +302,78 @@ Definition bpc_args (l : blocal) : nat * nat :=
   | BArr _ _ _ _ (Some (TSecond r c _)) => (r, c)
   | _ => (0, 0)
   end.
+
+(* ---------------------------------------------------------------------------------------
+   Source-shaped ticket claims.  The three ticket claims of arrive() — old -> full on the
+   unpaired last node ("1 in 1"), old -> half ("1 in 2"), half -> full ("2 in 2") — are one
+   atomic step each in [tree_step] because the source claims them with
+   compare_exchange_strong.  Whether it does is re-read from barrier.cpp on every run
+   (Gen.GenBarrier: claim_last_is_cas, claim_first_is_cas, claim_second_is_cas).
+   [treex_step cl] is the tree step for an arbitrary shape [cl] of the claims: a claim that
+   is a compare_exchange is the step of [tree_step]; a claim written as load; store is TWO
+   steps with the intermediate program counter [XStore] ("read the expected value, about to
+   store") — another arrival may run in between.  [src_claims] is the shape the source has.
+   Proofs/BarrierClaimsProofs.v: for src_claims the two step functions coincide (which is
+   what entitles the lock-step tie and the theorems to use [tree_step]); for a load; store
+   claim the property fails (concrete schedules). *)
+Record claims := { c_last : bool; c_first : bool; c_second : bool }.
+Definition src_claims : claims :=
+  {| c_last := claim_last_is_cas; c_first := claim_first_is_cas; c_second := claim_second_is_cas |}.
+Definition all_cas : claims := {| c_last := true; c_first := true; c_second := true |}.
+
+Inductive which_claim := CLast | CFirst | CSecond.
+Inductive xpc := XP (pc : tpc) | XStore (w : which_claim) (r cur ce : nat).
+
+Definition liftx (x : tree * tpc) : tree * xpc := (fst x, XP (snd x)).
+
+Definition treex_step (cl : claims) (p : N) (t : nat) (tr : tree) (x : xpc) : tree * xpc :=
+  match x with
+  | XP (TScan r cur0 ce) =>
+      let en := (ce + 1) / 2 in
+      let last := en - 1 in
+      let cur := if Nat.eqb cur0 en then 0 else cur0 in
+      let v := tk tr r cur in
+      if Nat.eqb cur last && Nat.odd ce then
+        if c_last cl then liftx (tree_step p t tr (TScan r cur0 ce))
+        else (* ticket.load() == old_phase ? *)
+          if N.eqb v p then (tr, XStore CLast r cur ce) else (tr, XP (TScan r (S cur) ce))
+      else
+        if c_first cl then liftx (tree_step p t tr (TScan r cur0 ce))
+        else (* expect = ticket.load(); == old_phase ? ... : == half_step ? ... *)
+          if N.eqb v p then (tr, XStore CFirst r cur ce)
+          else if N.eqb v (half_of p) then (tr, XP (TSecond r cur ce))
+          else (tr, XP (TScan r (S cur) ce))
+  | XP (TSecond r cur ce) =>
+      if c_second cl then liftx (tree_step p t tr (TSecond r cur ce))
+      else if N.eqb (tk tr r cur) (half_of p) then (tr, XStore CSecond r cur ce)
+           else (tr, XP (TScan r (S cur) ce))
+  | XP (TRet _) => (tr, x)
+  (* the store half of a load; store claim: unconditional *)
+  | XStore CLast r cur ce => liftx (advance t (set_tk tr r cur (full_of p)) r cur ce)
+  | XStore CFirst r cur ce => (leave (set_tk tr r cur (half_of p)) r t, XP (TRet false))
+  | XStore CSecond r cur ce => liftx (advance t (set_tk tr r cur (full_of p)) r cur ce)
+  end.
+
+Record trx_local := { todox : nat; tpx : option xpc }.
+
+Definition finishx (g : tree) (lg : list (nat * bool * nat)) (t : nat) (x : xpc) (todo' : nat)
+  : tr_shared * trx_local :=
+  match x with
+  | XP (TRet b) => ({| tre := g; trlog := (t, b, started g) :: lg |}, {| todox := todo'; tpx := None |})
+  | _ => ({| tre := g; trlog := lg |}, {| todox := todo'; tpx := Some x |})
+  end.
+
+Definition trx_tstep (cl : claims) (E : nat) (p : N) (start : nat) (t : nat) (g : tr_shared) (l : trx_local)
+  : tr_shared * trx_local :=
+  match tpx l with
+  | None =>
+      match todox l with
+      | 0 => (g, l)
+      | S k => let '(g', pc) := tree_start E t (tre g) start in finishx g' (trlog g) t (XP pc) k
+      end
+  | Some x => let '(g', x') := treex_step cl p t (tre g) x in finishx g' (trlog g) t x' (todox l)
+  end.
+
+Definition trx_locals (progs : nat -> nat) : nat -> trx_local := fun t => {| todox := progs t; tpx := None |}.
+Definition trx_run (cl : claims) (E : nat) (p : N) (sched : list (nat * nat)) (progs : nat -> nat) :=
+  run (trx_tstep cl E p) sched (tr_init p, trx_locals progs).
